@@ -110,10 +110,10 @@ def match_value(props=None):
     paths = ex.block(node.body, st); obl = []; U = '_match_metadata_value'
     for s, oc in paths:
         oc = ('return', NONE) if oc[0] == 'normal' else oc
-        obl.append(Obl('C14/%s/total/never_raises' % U, 'C14', s, z3.BoolVal(oc[0] == 'return'), oc))
+        obl.append(Obl('C14/%s/total/never_raises' % U, ('C14', 'C10'), s, z3.BoolVal(oc[0] == 'return'), oc))
         if oc[0] == 'return':
             val, defined = spec_matches(s, f, v)
-            obl.append(Obl('C14/%s/meaning/result_is_documented_match' % U, 'C14', s, z3.Implies(defined, truthy(oc[1]) == val), oc))
+            obl.append(Obl('C14/%s/meaning/result_is_documented_match' % U, ('C14', 'C10'), s, z3.Implies(defined, truthy(oc[1]) == val), oc))
             obl.append(Obl('C14/%s/meaning/result_is_a_bool' % U, 'C14', s, Val.is_b(oc[1]), oc))
     mv = {'filter': f, 'recorded': v, 'filter.operator': st.dget(f, S('operator')), 'filter.value': opnd,
           'filter.islist': islist(f), 'filter.isdict': isdict(f), 'filter.has_operator': st.dhas(f, S('operator')), 'filter.has_value': st.dhas(f, S('value')),
